@@ -401,12 +401,17 @@ func (env *Zlisp) StandardSetup() {
 	//	_, err = env.EvalString(colonOp)
 	//	panicOn(err)
 
+	// (the count and the position get generated names: with the fixed
+	// names n and i a loop whose key or value variable was called n or
+	// i - or that ranged over a hash held in a variable of that name -
+	// went wrong, silently or with a baffling error)
 	rangeMacro := `(defmac range [key value myhash & body]
-  ^(let [n (len ~myhash)]
-      (for [(def i 0) (< i n) (def i (+ i 1))]
+  (let [n (gensym) i (gensym)]
+  ^(let [~n (len ~myhash)]
+      (for [(def ~i 0) (< ~i ~n) (def ~i (+ ~i 1))]
         (begin
-          (mdef (quote ~key) (quote ~value) (hpair ~myhash i))
-          ~@body))))`
+          (mdef (quote ~key) (quote ~value) (hpair ~myhash ~i))
+          ~@body)))))`
 	_, err = env.EvalString(rangeMacro)
 	panicOn(err)
 
